@@ -33,9 +33,10 @@ type HttpInput struct {
 	NoPort  bool     `json:"noport"` // director whose host carries no port (port taken from the connection)
 	Msgs    []hx.B   `json:"msgs"`   // the client's messages; the stream is their concatenation
 	Items   []Item   `json:"items"`
-	Replies []HReply `json:"replies"` // backend reply to the k-th request it receives on this connection
-	Group   int      `json:"group"`   // cases of one group run concurrently
-	Marker  string   `json:"marker"`  // value of the X-C15 header in this case's requests (how the backend attributes connections)
+	Replies []HReply `json:"replies"`  // backend reply to the k-th request it receives on this connection
+	Group   int      `json:"group"`    // cases of one group run concurrently
+	RealTCP bool     `json:"real_tcp"` // client leg over a real loopback TCP connection (segmentation then up to the kernel)
+	Marker  string   `json:"marker"`   // value of the X-C15 header in this case's requests (how the backend attributes connections)
 }
 
 type SResp struct {
@@ -327,6 +328,22 @@ func genPipelined(r *hx.Rand, id string, mode int) HttpInput {
 	return in
 }
 
+// oversend: the backend writes an unsolicited second reply in the same write as the
+// first; the proxy's reply reader is created anew for every reply, so the extra one is
+// read ahead and dropped.
+func genOversend(r *hx.Rand, id string) HttpInput {
+	in := genLockstep(r, id, r.Range(1, 3), true)
+	in.Class = "oversend"
+	k := r.Intn(len(in.Replies))
+	extra := genReply(r, "GET", true)
+	raw := append(append([]byte(nil), in.Replies[k].Raw...), extra.Raw...)
+	for len(raw) > 3000 {
+		return genOversend(r, id)
+	}
+	in.Replies[k] = HReply{Raw: raw, Cuts: []int{len(raw)}}
+	return in
+}
+
 func genMalformed(r *hx.Rand, id string) HttpInput {
 	in := HttpInput{Class: "malformed"}
 	good := genRequest(r, id, true, false)
@@ -411,9 +428,24 @@ func (e *httpEnv) run(in HttpInput, id string) (HttpObs, string) {
 	}
 	local := &net.TCPAddr{IP: net.ParseIP("127.0.0.1"), Port: lport}
 	remote := &net.TCPAddr{IP: net.ParseIP("198.51.100.7"), Port: 20000 + int(n)}
-	sc, cc := lab.Pipe(local, remote)
-	if !inject(sc) {
-		return ob, "server does not accept"
+	var cc net.Conn
+	var closed <-chan struct{}
+	if in.RealTCP {
+		ts, tc, err := tcpPair()
+		if err != nil {
+			hx.Fatal("tcp pair: %v", err)
+		}
+		w := &addrConn{Conn: ts, L: local, R: remote, closed: make(chan struct{})}
+		cc, closed = tc, w.closed
+		if !inject(w) {
+			return ob, "server does not accept"
+		}
+	} else {
+		sc, pc := lab.Pipe(local, remote)
+		cc, closed = pc, sc.Closed()
+		if !inject(sc) {
+			return ob, "server does not accept"
+		}
 	}
 	var stream []byte
 	for _, m := range in.Msgs {
@@ -490,7 +522,7 @@ loop:
 	}
 	cc.Close()
 	select {
-	case <-sc.Closed():
+	case <-closed:
 	case <-time.After(8 * time.Second):
 		return ob, "proxy did not close the client connection"
 	}
